@@ -132,11 +132,68 @@ def crc_py(data: bytes, init: int) -> int:
     return crc
 
 
-def crc_fold(items, init_term, mode=None):
+_T_VALS = None
+_COLS = {}
+_ZERO16 = None
+
+
+def _cols(k):
+    """columns of the GF(2)-linear map  s -> crc(s, k zero bytes)"""
+    c = _COLS.get(k)
+    if c is None:
+        z = bytes(k)
+        c = [binascii.crc_hqx(z, 1 << i) for i in range(16)]
+        _COLS[k] = c
+    return c
+
+
+def crc_run_concrete(crc, data: bytes):
+    """crc over a run of concrete bytes from a symbolic state:  L_k(crc) xor crc(0, data)
+    (the CRC is affine over GF(2) in (state, data) for a fixed length)"""
+    if z3.is_bv_value(crc):
+        return z3.BitVecVal(binascii.crc_hqx(data, crc.as_long()), 16)
+    cols = _cols(len(data))
+    acc = None
+    for i in range(16):
+        if cols[i] == 0:
+            continue
+        t = z3.SignExt(15, z3.Extract(i, i, crc)) & z3.BitVecVal(cols[i], 16)
+        acc = t if acc is None else acc ^ t
+    c0 = binascii.crc_hqx(data, 0)
+    if acc is None:
+        return z3.BitVecVal(c0, 16)
+    return acc ^ z3.BitVecVal(c0, 16) if c0 else acc
+
+
+def crc_fold(items, init_term, mode=None, linear_runs=True):
     """fold the crc over a list of units/blobs; returns a 16-bit term"""
     mode = mode or CRC_MODE
+    cache = None
+    key = None
+    if E.active():
+        cache = E.cur().notes.setdefault("crc_cache", {})
+        key = (init_term.get_id(), mode, tuple(u if isinstance(u, int) else (("b", u.bid, u.view) if isinstance(u, Blob) else unit_term(u).get_id()) for u in items))
+        hit = cache.get(key)
+        if hit is not None:
+            return hit[0]
     crc = init_term
+    run = bytearray()
+
+    def flush(crc):
+        if run:
+            if mode == "bits" and linear_runs:
+                crc = crc_run_concrete(crc, bytes(run))
+            else:
+                for b in run:
+                    crc = crc_step_bits(crc, z3.BitVecVal(b, 8)) if mode == "bits" else _UF_STEP(crc, z3.BitVecVal(b, 8))
+            run.clear()
+        return crc
+
     for u in items:
+        if isinstance(u, int):
+            run.append(u)
+            continue
+        crc = flush(crc)
         if isinstance(u, Blob):
             if u.view != "raw":
                 raise Unsupported("crc over a hex-view blob")
@@ -149,6 +206,9 @@ def crc_fold(items, init_term, mode=None):
             crc = crc_step_bits(crc, unit_term(u))
         else:
             crc = _UF_STEP(crc, unit_term(u))
+    crc = flush(crc)
+    if cache is not None:
+        cache[key] = (crc, items)
     return crc
 
 
